@@ -18,9 +18,14 @@ def run(cmd, cwd, env=None, timeout=600):
 
 
 def main(props):
+    only = None
+    for a in list(props):
+        if a.startswith("--only="):
+            only = tuple(a.split("=", 1)[1].split(","))
+            props = [x for x in props if x != a]
     for prop in props:
         wt = f"/tmp/wt/{prop}"
-        for v in ("a", "b", "c", "d", "e", "f", "g", "h"):
+        for v in only or ("a", "b", "c", "d", "e", "f", "g", "h", "i", "j"):
             sd = f"{wt}/_seed/{v}"
             if not os.path.exists(f"{sd}/patch.diff"):
                 continue
